@@ -112,6 +112,7 @@ func init() {
 		&slip.FuncDoc{
 			Name: "help",
 			Args: []*slip.DocArg{
+				{Name: "&optional"},
 				{
 					Name: "object",
 					Type: "object",
